@@ -63,6 +63,10 @@ func dumpStruct(s *parser.Struct) idl.CStruct {
 	return c
 }
 
+func annSuf(a parser.Annotations) string {
+	return idl.AnnotSuffix(len(a), func(i int) (string, string) { return a[i].Name, a[i].Value })
+}
+
 // dumpFrugal converts the parser's result into the canonical comparison structure.
 func dumpFrugal(f *parser.Frugal) *idl.CFile {
 	c := &idl.CFile{}
@@ -73,17 +77,17 @@ func dumpFrugal(f *parser.Frugal) *idl.CFile {
 		c.Namespaces = append(c.Namespaces, n.Scope+" "+n.Value)
 	}
 	for _, t := range f.Typedefs {
-		c.Typedefs = append(c.Typedefs, t.Name+"="+t.Type.String())
+		c.Typedefs = append(c.Typedefs, t.Name+"="+t.Type.String()+annSuf(t.Annotations))
 	}
 	for _, e := range f.Enums {
-		ce := idl.CEnum{Name: e.Name}
+		ce := idl.CEnum{Name: e.Name + annSuf(e.Annotations)}
 		for _, v := range e.Values {
-			ce.Values = append(ce.Values, fmt.Sprintf("%s=%d", v.Name, v.Value))
+			ce.Values = append(ce.Values, fmt.Sprintf("%s=%d", v.Name, v.Value)+annSuf(v.Annotations))
 		}
 		c.Enums = append(c.Enums, ce)
 	}
 	for _, k := range f.Constants {
-		c.Consts = append(c.Consts, k.Name+":"+k.Type.String()+"="+canonDefault(k.Value))
+		c.Consts = append(c.Consts, k.Name+":"+k.Type.String()+"="+canonDefault(k.Value)+annSuf(k.Annotations))
 	}
 	for _, s := range f.Structs {
 		c.Structs = append(c.Structs, dumpStruct(s))
@@ -95,9 +99,9 @@ func dumpFrugal(f *parser.Frugal) *idl.CFile {
 		c.Unions = append(c.Unions, dumpStruct(s))
 	}
 	for _, s := range f.Services {
-		cs := idl.CService{Name: s.Name, Extends: s.Extends}
+		cs := idl.CService{Name: s.Name + annSuf(s.Annotations), Extends: s.Extends}
 		for _, m := range s.Methods {
-			cm := idl.CMethod{Name: m.Name, Oneway: m.Oneway}
+			cm := idl.CMethod{Name: m.Name + annSuf(m.Annotations), Oneway: m.Oneway}
 			if m.ReturnType != nil {
 				cm.Ret = m.ReturnType.String()
 			}
@@ -112,13 +116,13 @@ func dumpFrugal(f *parser.Frugal) *idl.CFile {
 		c.Services = append(c.Services, cs)
 	}
 	for _, s := range f.Scopes {
-		cs := idl.CScope{Name: s.Name}
+		cs := idl.CScope{Name: s.Name + annSuf(s.Annotations)}
 		if s.Prefix != nil {
 			cs.Prefix = s.Prefix.String
 			cs.Vars = append(cs.Vars, s.Prefix.Variables...)
 		}
 		for _, o := range s.Operations {
-			cs.Ops = append(cs.Ops, o.Name+":"+o.Type.String())
+			cs.Ops = append(cs.Ops, o.Name+":"+o.Type.String()+annSuf(o.Annotations))
 		}
 		c.Scopes = append(c.Scopes, cs)
 	}
